@@ -122,54 +122,132 @@ Proof.
   replace (c + n * m - i) with ((c - i) + m * n) by lia. rewrite Z.div_add by lia. lia.
 Qed.
 
-(* the index handed out by the t-th pick after counter value c (no 2^64 wrap inside the window) *)
-Lemma rr_pick_index pool c : pool <> [] -> 0 <= c -> c + 1 < 18446744073709551616 ->
+Definition all_flag (p : list backend) : Prop := Forall (fun b => bflag b = true) p.
+
+(* the index handed out by a pick after counter value c when every backend is eligible
+   (no 2^64 wrap inside the window) *)
+Lemma rr_pick_index pool c : all_flag pool -> pool <> [] -> 0 <= c -> c + 1 < 18446744073709551616 ->
   rr_pick pool c = (nthZ pool ((c + 1) mod zlen pool), c + 1).
 Proof.
-  intros Hne Hc Hw. unfold rr_pick. destruct pool as [|b t]; [congruence|].
-  rewrite wrap_u64_id by lia. reflexivity.
+  intros Hf Hne Hc Hw. unfold rr_pick. destruct pool as [|b t] eqn:Ep; [congruence|]. rewrite <- Ep in *.
+  assert (El : length pool = S (length t)) by (rewrite Ep; reflexivity). rewrite El. cbn [rr_scan].
+  rewrite wrap_u64_id by lia.
+  pose proof (zlen_pos pool Hne) as Hl.
+  destruct (nthZ_in pool ((c + 1) mod zlen pool) ltac:(apply Z.mod_pos_bound; lia)) as (x & Ex & Hx).
+  rewrite Ex. rewrite (proj1 (Forall_forall _ _) Hf x Hx). reflexivity.
+Qed.
+
+(* a scan that gives up has seen only ineligible backends *)
+Lemma rr_scan_none fuel : forall pool c,
+  pool <> [] -> 0 <= c -> c + Z.of_nat fuel < 18446744073709551616 ->
+  fst (rr_scan fuel pool c) = None ->
+  forall t, 1 <= t <= Z.of_nat fuel ->
+    match nthZ pool ((c + t) mod zlen pool) with Some b => bflag b = false | None => False end.
+Proof.
+  induction fuel as [|f IH]; intros pool c Hne Hc Hw Hn t Ht; [lia|].
+  cbn [rr_scan] in Hn. rewrite wrap_u64_id in Hn by lia.
+  pose proof (zlen_pos pool Hne) as Hl.
+  destruct (nthZ_in pool ((c + 1) mod zlen pool) ltac:(apply Z.mod_pos_bound; lia)) as (x & Ex & Hx).
+  rewrite Ex in Hn. destruct (bflag x) eqn:Efx; [cbn in Hn; discriminate|].
+  destruct (Z.eq_dec t 1) as [->|Hne1].
+  - rewrite Ex. exact Efx.
+  - specialize (IH pool (c + 1) Hne ltac:(lia) ltac:(lia) Hn (t - 1) ltac:(lia)).
+    replace (c + 1 + (t - 1)) with (c + t) in IH by lia. exact IH.
+Qed.
+
+Lemma rr_scan_flagged fuel : forall pool c b c',
+  rr_scan fuel pool c = (Some b, c') -> In b pool /\ bflag b = true.
+Proof.
+  induction fuel as [|f IH]; intros pool c b c' H; cbn [rr_scan] in H; [discriminate|].
+  destruct (nthZ pool (wrap_u64 (c + 1) mod zlen pool)) as [x|] eqn:Ex; [|discriminate].
+  destruct (bflag x) eqn:Ef.
+  - inversion H; subst. split; [|exact Ef]. unfold nthZ in Ex.
+    destruct (_ <? 0); [discriminate|]. eapply nth_error_In; eauto.
+  - eapply IH; eauto.
+Qed.
+
+Lemma cnt_pos_exists n i c len : 0 < cnt n i c len -> exists t, 1 <= t <= Z.of_nat len /\ (c + t) mod n = i.
+Proof.
+  induction len as [|k IH]; cbn [cnt]; [lia|]. intros H.
+  destruct ((c + Z.of_nat (S k)) mod n =? i) eqn:E.
+  - exists (Z.of_nat (S k)). split; [lia|]. apply Z.eqb_eq. exact E.
+  - destruct IH as (t & Ht & Et); [lia|]. exists t. split; [lia|exact Et].
+Qed.
+
+Lemma In_nthZ {A} (l : list A) x : In x l -> exists i, 0 <= i < zlen l /\ nthZ l i = Some x.
+Proof.
+  intros H. apply In_nth_error in H. destruct H as (k & Hk).
+  exists (Z.of_nat k). assert (k < length l)%nat by (apply nth_error_Some; congruence).
+  split; [unfold zlen; lia|]. unfold nthZ. assert (E : (Z.of_nat k <? 0) = false) by lia. rewrite E.
+  rewrite Nat2Z.id. exact Hk.
+Qed.
+
+(* round robin finds an eligible backend whenever one exists *)
+Theorem rr_finds_flagged pool c :
+  0 <= c -> c + zlen pool < 18446744073709551616 ->
+  (exists b, In b pool /\ bflag b = true) ->
+  exists b c', rr_pick pool c = (Some b, c') /\ In b pool /\ bflag b = true.
+Proof.
+  intros Hc Hw (b0 & Hb0 & Hf0).
+  assert (Hne : pool <> []) by (destruct pool; [destruct Hb0|discriminate]).
+  unfold rr_pick. destruct pool as [|x t] eqn:Ep; [congruence|]. rewrite <- Ep in *.
+  destruct (rr_scan (length pool) pool c) as [ob c'] eqn:Es.
+  destruct ob as [b|].
+  - exists b, c'. split; [reflexivity|]. eapply rr_scan_flagged; eauto.
+  - exfalso. pose proof (zlen_pos pool Hne) as Hl.
+    destruct (In_nthZ pool b0 Hb0) as (i & Hi & Ei).
+    pose proof (rr_window (zlen pool) i c 1 ltac:(lia) Hi ltac:(lia)) as Hcnt.
+    rewrite Z.mul_1_r in Hcnt. unfold zlen in Hcnt at 2. rewrite Nat2Z.id in Hcnt.
+    destruct (cnt_pos_exists (zlen pool) i c (length pool) ltac:(lia)) as (t0 & Ht0 & Et0).
+    pose proof (rr_scan_none (length pool) pool c Hne Hc ltac:(unfold zlen in Hw; lia)
+                  ltac:(rewrite Es; reflexivity) t0 Ht0) as Hno.
+    rewrite Et0, Ei in Hno. congruence.
 Qed.
 
 (* ------------------------------------------------------------------------------------------ *)
 (* C05 : least connections                                                                      *)
 
 Lemma lc_scan_spec pool : forall best minc,
-  (match best with Some bb => bactive bb = minc | None => True end) ->
+  (match best with Some bb => bactive bb = minc /\ bflag bb = true | None => True end) ->
   match lc_scan best minc pool with
-  | Some r => (In r pool \/ best = Some r) /\ bactive r <= minc /\ (forall x, In x pool -> bactive r <= bactive x)
-  | None => best = None /\ (forall x, In x pool -> minc <= bactive x)
+  | Some r => (In r pool \/ best = Some r) /\ bflag r = true /\ bactive r <= minc
+              /\ (forall x, In x pool -> bflag x = true -> bactive r <= bactive x)
+  | None => best = None /\ (forall x, In x pool -> bflag x = true -> minc <= bactive x)
   end.
 Proof.
   induction pool as [|b t IH]; intros best minc Hb; cbn [lc_scan].
   - destruct best as [bb|]; [|split; [reflexivity|intros x []]].
-    split; [right; reflexivity|]. split; [lia|intros x []].
-  - destruct (bactive b <? minc) eqn:E.
-    + specialize (IH (Some b) (bactive b) eq_refl).
+    destruct Hb as [Hb1 Hb2]. split; [right; reflexivity|]. split; [exact Hb2|]. split; [lia|intros x []].
+  - destruct (bflag b && (bactive b <? minc)) eqn:E.
+    + apply andb_true_iff in E. destruct E as [Ef El].
+      specialize (IH (Some b) (bactive b) (conj eq_refl Ef)).
       destruct (lc_scan (Some b) (bactive b) t) as [r|].
-      * destruct IH as (Hin & Hle & Hall). split; [|split].
+      * destruct IH as (Hin & Hfr & Hle & Hall). split; [|split; [exact Hfr|split]].
         -- destruct Hin as [Hin|Hin]; [left; right; exact Hin | left; left; congruence].
         -- lia.
-        -- intros x [->|Hx]; [lia|auto].
+        -- intros x [->|Hx] Hfx; [lia|auto].
       * destruct IH as [IH _]. discriminate.
     + specialize (IH best minc Hb).
       destruct (lc_scan best minc t) as [r|].
-      * destruct IH as (Hin & Hle & Hall). split; [|split].
+      * destruct IH as (Hin & Hfr & Hle & Hall). split; [|split; [exact Hfr|split]].
         -- destruct Hin as [Hin|Hin]; [left; right; exact Hin | right; exact Hin].
         -- exact Hle.
-        -- intros x [->|Hx]; [lia|auto].
-      * destruct IH as [IH1 IH2]. split; [exact IH1|]. intros x [->|Hx]; [lia|auto].
+        -- intros x [->|Hx] Hfx; [|auto]. rewrite Hfx in E. cbn [andb] in E. lia.
+      * destruct IH as [IH1 IH2]. split; [exact IH1|]. intros x [->|Hx] Hfx; [|auto].
+        rewrite Hfx in E. cbn [andb] in E. lia.
 Qed.
 
+(* the pick is eligible and has a minimal in-flight count among the eligible backends *)
 Theorem lc_min pool :
-  pool <> [] -> (forall x, In x pool -> bactive x < 2147483647) ->
-  exists b, lc_pick pool = Some b /\ In b pool /\ forall x, In x pool -> bactive b <= bactive x.
+  (exists b, In b pool /\ bflag b = true) -> (forall x, In x pool -> bactive x < 2147483647) ->
+  exists b, lc_pick pool = Some b /\ In b pool /\ bflag b = true
+            /\ forall x, In x pool -> bflag x = true -> bactive b <= bactive x.
 Proof.
-  intros Hne Hlt. unfold lc_pick. pose proof (lc_scan_spec pool None 2147483647 I) as H.
+  intros (b0 & Hb0 & Hf0) Hlt. unfold lc_pick. pose proof (lc_scan_spec pool None 2147483647 I) as H.
   destruct (lc_scan None 2147483647 pool) as [r|].
-  - destruct H as (Hin & _ & Hall). exists r. split; [reflexivity|]. split; [|exact Hall].
+  - destruct H as (Hin & Hfr & _ & Hall). exists r. split; [reflexivity|]. split; [|split; [exact Hfr|exact Hall]].
     destruct Hin as [Hin|Hin]; [exact Hin|discriminate].
-  - destruct H as [_ H]. destruct pool as [|b t]; [congruence|].
-    specialize (H b (or_introl eq_refl)). specialize (Hlt b (or_introl eq_refl)). lia.
+  - destruct H as [_ H]. specialize (H b0 Hb0 Hf0). specialize (Hlt b0 Hb0). lia.
 Qed.
 
 (* ------------------------------------------------------------------------------------------ *)
@@ -177,7 +255,6 @@ Qed.
 
 Definition Wt (p : list backend) : Z := sumZ (map bweight p).
 Definition Scw (p : list backend) : Z := sumZ (map bcw p).
-Definition all_flag (p : list backend) : Prop := Forall (fun b => bflag b = true) p.
 
 Lemma wrr_total_all p : all_flag p -> wrr_total p = Wt p.
 Proof.
@@ -507,4 +584,95 @@ Proof.
   pose proof (swrr_exact p Hf Hne Hnd Hw Hfr) as H.
   rewrite wrun_app. destruct (wrun (Z.to_nat (Wt p)) p) as [ps p']. destruct H as [Hcnt Ep]. subst p'.
   destruct (wrun a p) as [l2 p2]. cbn [fst]. rewrite count_in_app, (Hcnt b Hb). lia.
+Qed.
+
+(* ------------------------------------------------------------------------------------------ *)
+(* C02 at strategy level: every strategy returns an eligible backend whenever one exists        *)
+
+Lemma wrr_best_flagged p : forall best,
+  (match best with Some x => bflag x = true | None => True end) ->
+  match wrr_best best p with
+  | Some x => bflag x = true /\ (best = Some x \/ In x p)
+  | None => best = None /\ forall y, In y p -> bflag y = false
+  end.
+Proof.
+  induction p as [|b t IH]; intros best Hb; cbn [wrr_best].
+  - destruct best as [x|]; [split; [exact Hb|left; reflexivity]|split; [reflexivity|intros y []]].
+  - destruct (bflag b) eqn:Ef.
+    + assert (Hnew : match wrr_best (Some b) t with
+                     | Some x => bflag x = true /\ (In x (b :: t))
+                     | None => False end).
+      { specialize (IH (Some b) Ef). destruct (wrr_best (Some b) t) as [r|]; [|destruct IH; discriminate].
+        destruct IH as [Hr Hor]. split; [exact Hr|]. destruct Hor as [E|Hin]; [inversion E; subst; left; reflexivity|right; exact Hin]. }
+      destruct best as [x|].
+      * destruct (bcw x <? bcw b).
+        -- destruct (wrr_best (Some b) t) as [r|]; [|destruct Hnew]. destruct Hnew as [Hr Hin]. split; [exact Hr|right; exact Hin].
+        -- specialize (IH (Some x) Hb). destruct (wrr_best (Some x) t) as [r|]; [|destruct IH; discriminate].
+           destruct IH as [Hr Hor]. split; [exact Hr|]. destruct Hor as [E|Hin]; [left; exact E|right; right; exact Hin].
+      * destruct (wrr_best (Some b) t) as [r|]; [|destruct Hnew]. destruct Hnew as [Hr Hin]. split; [exact Hr|right; exact Hin].
+    + specialize (IH best Hb). destruct (wrr_best best t) as [r|].
+      * destruct IH as [Hr Hor]. split; [exact Hr|]. destruct Hor as [E|Hin]; [left; exact E|right; right; exact Hin].
+      * destruct IH as [E Hall]. split; [exact E|]. intros y [->|Hy]; auto.
+Qed.
+
+Lemma wrr_bump_flags p : map bflag (wrr_bump p) = map bflag p /\ map bid (wrr_bump p) = map bid p.
+Proof.
+  unfold wrr_bump. rewrite !map_map. split; apply map_ext; intros b; destruct (bflag b) eqn:E; cbn; auto.
+Qed.
+
+Lemma In_map_flag (p q : list backend) :
+  map bflag p = map bflag q -> map bid p = map bid q ->
+  forall y, In y q -> exists x, In x p /\ bflag x = bflag y /\ bid x = bid y.
+Proof.
+  revert q. induction p as [|a t IH]; intros q Hf Hi y Hy; destruct q as [|c u]; cbn [map] in *; try discriminate; [destruct Hy|].
+  inversion Hf. inversion Hi. destruct Hy as [->|Hy].
+  - exists a. split; [left; reflexivity|auto].
+  - destruct (IH u H1 H3 y Hy) as (x & Hx & E1 & E2). exists x. split; [right; exact Hx|auto].
+Qed.
+
+(* the pick of each strategy: flagged, and a member of the pool by identity; None only if nothing is flagged *)
+Theorem pick_eligible s r :
+  0 <= sctr s -> sctr s + zlen (spool s) < 18446744073709551616 ->
+  zlen (healthy (spool s)) < 2147483648 ->
+  (forall x, In x (spool s) -> bactive x < 2147483647) ->
+  match fst (s_pick s r) with
+  | Some b => bflag b = true /\ In (bid b) (map bid (spool s))
+  | None => forall y, In y (spool s) -> bflag y = false
+  end.
+Proof.
+  intros Hc Hw Hlen Hact. unfold s_pick. destruct (skd s).
+  - (* RR *)
+    destruct (rr_pick (spool s) (sctr s)) as [ob c'] eqn:E. cbn [fst].
+    destruct ob as [b|].
+    + unfold rr_pick in E. destruct (spool s) as [|x t] eqn:Ep; [inversion E|]. rewrite <- Ep in *.
+      destruct (rr_scan_flagged _ _ _ _ _ E) as [Hin Hf]. split; [exact Hf|apply in_map; exact Hin].
+    + intros y Hy. destruct (bflag y) eqn:Ef; [|reflexivity]. exfalso.
+      destruct (rr_finds_flagged (spool s) (sctr s) Hc Hw (ex_intro _ y (conj Hy Ef))) as (b & c2 & E2 & _).
+      rewrite E in E2. discriminate.
+  - (* LC *)
+    cbn [fst]. destruct (lc_pick (spool s)) as [b|] eqn:E.
+    + unfold lc_pick in E. pose proof (lc_scan_spec (spool s) None 2147483647 I) as H. rewrite E in H.
+      destruct H as (Hin & Hf & _). split; [exact Hf|]. destruct Hin as [Hin|Hin]; [apply in_map; exact Hin|discriminate].
+    + intros y Hy. destruct (bflag y) eqn:Ef; [|reflexivity]. exfalso.
+      destruct (lc_min (spool s) (ex_intro _ y (conj Hy Ef)) Hact) as (b & E2 & _). rewrite E in E2. discriminate.
+  - (* WRR *)
+    unfold wrr_pick. pose proof (wrr_best_flagged (wrr_bump (spool s)) None I) as H.
+    destruct (wrr_bump_flags (spool s)) as [Ef Ei].
+    destruct (wrr_best None (wrr_bump (spool s))) as [x|]; cbn [fst].
+    + destruct H as [Hf [E|Hin]]; [discriminate|]. split; [exact Hf|]. rewrite <- Ei. apply in_map. exact Hin.
+    + destruct H as [_ Hall]. intros y Hy.
+      destruct (In_map_flag (wrr_bump (spool s)) (spool s) Ef Ei y Hy) as (x & Hx & E1 & _).
+      rewrite <- E1. apply Hall. exact Hx.
+  - (* IPH *)
+    cbn [fst]. destruct (healthy (spool s)) as [|h0 ht] eqn:Eh.
+    + unfold iph_pick. rewrite Eh. intros y Hy. destruct (bflag y) eqn:Ef; [|reflexivity]. exfalso.
+      assert (In y (healthy (spool s))) by (unfold healthy; apply filter_In; auto). rewrite Eh in H. destruct H.
+    + rewrite <- Eh in Hlen. destruct (hash_valid (spool s) r ltac:(rewrite Eh; discriminate) Hlen) as [(b & E & Hin) _].
+      rewrite E. unfold healthy in Hin. apply filter_In in Hin. destruct Hin as [Hin Hf]. split; [exact Hf|apply in_map; exact Hin].
+  - (* IPHC *)
+    cbn [fst]. destruct (healthy (spool s)) as [|h0 ht] eqn:Eh.
+    + unfold iphc_pick. rewrite Eh. intros y Hy. destruct (bflag y) eqn:Ef; [|reflexivity]. exfalso.
+      assert (In y (healthy (spool s))) by (unfold healthy; apply filter_In; auto). rewrite Eh in H. destruct H.
+    + rewrite <- Eh in Hlen. destruct (hash_valid (spool s) r ltac:(rewrite Eh; discriminate) Hlen) as [_ (b & E & Hin)].
+      rewrite E. unfold healthy in Hin. apply filter_In in Hin. destruct Hin as [Hin Hf]. split; [exact Hf|apply in_map; exact Hin].
 Qed.
